@@ -7,6 +7,7 @@ import (
 	"strings"
 	"testing"
 
+	"github.com/hyperjumptech/grule-rule-engine/ast"
 	"pgregory.net/rapid"
 
 	"verif/internal/facts"
@@ -39,6 +40,12 @@ func c11Run(c *val.Case, removedLib, removedInst []string) ([]string, map[string
 	for _, n := range removedInst {
 		kb.RemoveRuleEntry(n)
 	}
+	return c11RunOn(c, prep, kb, removedLib, removedInst)
+}
+
+// c11RunOn checks one FetchMatchingRules call on the given instance.
+func c11RunOn(c *val.Case, prep *val.Prepared, kb *ast.KnowledgeBase, removedLib, removedInst []string) ([]string, map[string]interface{}, error) {
+	var err error
 	removed := map[string]bool{}
 	for _, n := range append(append([]string{}, removedLib...), removedInst...) {
 		removed[n] = true
